@@ -146,18 +146,55 @@ func protoExplore(job *Job, r *Report, prop string) {
 		}
 	}
 	rec(nil)
+	// longer scripts over the stateful core of the alphabet (one key: numeric / plain / C-allocated values, delete, incr,
+	// add, cas, reads), delivered whole: sequences such as incr - delete - incr need three or four letters
+	core := []string{"get-a", "set-a", "set-a-num", "set-a-c65", "set-a-rev1-c65", "delete-a", "incr-a-1", "add-a", "cas-a", "get-meta-a"}
+	core4 := []string{"get-a", "set-a-num", "set-a-c65", "delete-a", "incr-a-1"}
+	r.Bounds["core_letters_scripts_of_3"] = core
+	r.Bounds["core_letters_scripts_of_4"] = core4
+	var recCore func(script []string, letters []string, n int)
+	recCore = func(script []string, letters []string, n int) {
+		if r.Expired() {
+			return
+		}
+		if len(script) == n {
+			mine := unit%job.NShards == job.Shard
+			unit++
+			if !mine {
+				return
+			}
+			v := protoRun{Script: script, Split: -1, Cut: -1, Conns: 1}
+			o := protoRunOnce(al, v)
+			r.Count("evaluations", 1)
+			r.Count("core_scripts", 1)
+			r.Count("transitions", int64(len(script)))
+			r.Distinct("states", o.obs)
+			r.Distinct("nontrivial", strings.Join(script, " ")+"|"+o.obs)
+			if mm := pick(o, prop); mm != nil {
+				report(v, mm, o, "whole")
+			}
+			return
+		}
+		for _, n2 := range letters {
+			recCore(append(append([]string{}, script...), n2), letters, n)
+		}
+	}
+	if maxLen < 3 {
+		recCore(nil, core, 3)
+	}
+	recCore(nil, core4, 4)
 }
 
 func C11(job *Job, r *Report) {
 	r.Level = "model_checking"
-	r.Rule = "every script of up to N letters (quick 2, thorough 3) over a 60-letter alphabet of client byte strings (well-formed get/gets/set/add/replace/cas/delete/incr with and without noreply, binary and empty values, multi-get incl. duplicate keys, explicit revision; special keys @ / @@ / ? / ?? of every shape; stats, version, verbosity, flush_all; quit, unsupported verbs; malformed: wrong arity, non-numeric / negative / overflowing numbers, body longer / shorter than declared, missing CR, bare LF, empty line, missing terminator, over-long and control-character keys), followed by a resynchronising filler and a probe get; each script (of up to 2 letters) is delivered whole, in EVERY 2-segment split and cut at EVERY byte, through ServerConn.ServeOnce on an in-memory connection against the real StorageClient on memfs. Oracle: (1) the output parses with the harness's reply grammar; (2) commands in the modeled domain get exactly the reference map's reply, one per command in order, none for noreply; (3) other well-formed commands get exactly one valid reply; unsupported ones an error reply or an orderly close; inside/after a malformed region replies stay grammatical and, unless the connection was closed, the probe is answered last and correctly; (4) a cut stream yields replies for the complete commands only; a second connection still answers the probe and (if all letters were modeled) holds the model's content; panics and blocked token waits are violations; states = distinct server outputs"
+	r.Rule = "every script of up to N letters (quick 2, thorough 3) over a 60-letter alphabet of client byte strings (well-formed get/gets/set/add/replace/cas/delete/incr with and without noreply, binary and empty values, multi-get incl. duplicate keys, explicit revision; special keys @ / @@ / ? / ?? of every shape; stats, version, verbosity, flush_all; quit, unsupported verbs; malformed: wrong arity, non-numeric / negative / overflowing numbers, body longer / shorter than declared, missing CR, bare LF, empty line, missing terminator, over-long and control-character keys), followed by a resynchronising filler and a probe get; each script (of up to 2 letters) is delivered whole, in EVERY 2-segment split and cut at EVERY byte (plus, whole only, every script of 3 letters over a 10-letter stateful core and of 4 letters over a 5-letter core: reads, plain / numeric / C-allocated sets, delete, incr, add, cas on one key), through ServerConn.ServeOnce on an in-memory connection against the real StorageClient on memfs. Oracle: (1) the output parses with the harness's reply grammar; (2) commands in the modeled domain get exactly the reference map's reply, one per command in order, none for noreply; (3) other well-formed commands get exactly one valid reply; unsupported ones an error reply or an orderly close; inside/after a malformed region replies stay grammatical and, unless the connection was closed, the probe is answered last and correctly; (4) a cut stream yields replies for the complete commands only; a second connection still answers the probe and (if all letters were modeled) holds the model's content; panics and blocked token waits are violations; states = distinct server outputs"
 	r.Assumptions = []string{"timeouts do not fire (virtual clock)", "error text and error class of a malformed command are not pinned", "one connection served at a time (the accept loop is not executed)"}
 	protoExplore(job, r, "C11")
 }
 
 func C12(job *Job, r *Report) {
 	r.Level = "model_checking"
-	r.Rule = "same scripts and delivery variants (whole, every 2-segment split, cut at every byte) as C11 with value sizes on both sides of body_c_str (64) and of the compression threshold; after each run (all input consumed or cut, then forced flush) the invariant is evaluated: every request-limiter token is back (len(RL.Chan)==cap) and GetData, SetData, FlushData and AllocRL have count = size = 0; a server that would block on the token channel is detected structurally before it blocks; glibc MALLOC_PERTURB_ poisons freed C buffers so that a use after free shows up as wrong reply bytes (C11's oracle) and a double free aborts the worker"
+	r.Rule = "same scripts and delivery variants (whole, every 2-segment split, cut at every byte; core scripts of 3 and 4 letters whole) as C11 with value sizes on both sides of body_c_str (64) and of the compression threshold; after each run (all input consumed or cut, then forced flush) the invariant is evaluated: every request-limiter token is back (len(RL.Chan)==cap) and GetData, SetData, FlushData and AllocRL have count = size = 0; a server that would block on the token channel is detected structurally before it blocks; glibc MALLOC_PERTURB_ poisons freed C buffers so that a use after free shows up as wrong reply bytes (C11's oracle) and a double free aborts the worker"
 	r.Assumptions = []string{"connections are served one after the other (command-granularity interleaving of two connections is covered by the second-connection probe)", "OOM refusal paths are not reachable with the configured limits"}
 	protoExplore(job, r, "C12")
 }
